@@ -118,6 +118,24 @@ SenderStep(e) ==
        IN Do(<<f>>)
     /\ UNCHANGED d
 
+(* with several streams on the connection the sender may serve ANY stream that has something queued - its oldest frame / next fragment
+   (RSocketMC2: fragments of different streams interleave in every way; within a stream the order is fixed) *)
+SenderStepOf(e, sid) ==
+    /\ FirstIdx(mon.Q[e], sid) > 0
+    /\ LET s == mon.Q[e][FirstIdx(mon.Q[e], sid)]
+           split == Frag > 0 /\ s.ft \in Fragmentable /\ 9 + s.dl > Frag
+           rest == s.dl - s.sd
+           part == IF split THEN 1 ELSE s.dl
+           last == ~split \/ rest = 1
+           f == [Frame(e, "tx", IF s.started THEN "PAYLOAD" ELSE s.ft) EXCEPT
+                    !.sid = s.sid, !.n = IF s.started THEN 0 ELSE s.n, !.C = IF last THEN s.C ELSE 0,
+                    !.N = IF s.ft = "PAYLOAD" /\ s.ml + s.dl > 0 THEN 1 ELSE 0,
+                    !.F = IF split THEN (IF last THEN 0 ELSE 1) ELSE s.F, !.ml = s.ml, !.dl = part,
+                    !.dpid = IF s.dl > 0 THEN s.pid ELSE 0, !.doff = IF split THEN s.sd ELSE 0, !.code = s.code,
+                    !.wl = 9 + part]
+       IN Do(<<f>>)
+    /\ UNCHANGED d
+
 (* ---- the receiver of e takes the next frame from the link and reacts (DESIGN appendix A) ------------------------- *)
 ProducerActive(role) == It.prod[role] /\ ~It.prodCancelled[role] /\ ~It.doneBy[role]
 
